@@ -10,9 +10,31 @@ from .common import tlc, write_cfg, Raw, ToolError
 MAXN = 8
 
 
-def s4run_constants(N, M, DT, tmpw=(), sig=False, shapes=("ok",), dropfirst=True):
+def reg_atomic():
+    """Design parameter read from the source (DESIGN 4.4): is the temp file created while the
+    NAMED_TEMP_FILES write lock is held, and does the handler close the list?  Anchors missing = tool error."""
+    path = os.path.join(common.REPO, "src/readers/filedecompressor.rs")
+    text = open(path, encoding="utf-8", errors="replace").read()
+    m = re.search(r"pub fn decompress_to_ntf\(", text)
+    if not m:
+        raise ToolError("anchor decompress_to_ntf not found")
+    body = text[m.end():]
+    i_create = body.find(".tempfile()")
+    i_lock = body.find("NAMED_TEMP_FILES).write()")
+    if i_lock < 0:
+        i_lock = body.find("NAMED_TEMP_FILES.write()")
+    if i_create < 0 or i_lock < 0:
+        raise ToolError("anchors .tempfile() / NAMED_TEMP_FILES.write() not found in decompress_to_ntf")
+    i_closed = body.find("NAMED_TEMP_FILES_CLOSED.load")
+    s4 = open(os.path.join(common.REPO, "src/bin/s4.rs"), encoding="utf-8", errors="replace").read()
+    closes = "NAMED_TEMP_FILES_CLOSED.store(true" in s4
+    return i_lock < i_create and 0 <= i_closed < i_create and closes
+
+
+def s4run_constants(N, M, DT, tmpw=(), sig=False, shapes=("ok",), dropfirst=True, regatomic=None):
     return {"N": N, "M": M, "DT": set(DT), "CAP": common.channel_capacity(), "TMPW": set(tmpw), "SIG": sig,
-            "SHAPES": set(shapes), "DROPFIRST": dropfirst}
+            "SHAPES": set(shapes), "DROPFIRST": dropfirst,
+            "REGATOMIC": reg_atomic() if regatomic is None else regatomic}
 
 
 def model_check(workdir, name, consts, invariants, properties, workers=8, timeout=900, coverage=False):
